@@ -480,45 +480,60 @@ Section Ensure.
                 lseg (fnx (sg s')) (free_node s') (rev (seq (length (gnodes (sg s))) n) ++ l) cap
   }.
 
+  Lemma avu_post_refl s : avu_post s 0 s.
+  Proof. constructor; auto; lia. Qed.
+
+  Lemma avu_post_step s s1 n s' : avn_post s s1 -> avu_post s1 n s' -> avu_post s (S n) s'.
+  Proof.
+    intros P1 P'. constructor.
+    + intros j. rewrite (au_nodes P'). apply (av_nodes P1).
+    + rewrite (au_edges P'). apply (av_edges P1).
+    + rewrite (au_nlen P'), (av_nlen P1). lia.
+    + intros k j l Hj Hl. apply (au_adj P').
+      * rewrite (av_nodes P1). auto.
+      * apply (av_adj P1); auto.
+    + rewrite (au_nc P'). apply (av_nc P1).
+    + rewrite (au_ec P'). apply (av_ec P1).
+    + rewrite (au_fe P'). apply (av_fe P1).
+    + intros l Hl. pose proof (au_free P' (av_free P1 Hl)) as H'.
+      rewrite (av_nlen P1) in H'. cbn [seq rev]. rewrite <- app_assoc. exact H'.
+  Qed.
+
   Lemma add_vacant_until_spec ix : forall n s fuel,
     SInv s -> S ix - length (gnodes (sg s)) = n -> n < fuel -> ix < cap ->
-    exists s', add_vacant_until cap capcheck fuel s ix = Ok s' /\ SInv s' /\ avu_post s n s'.
+    exists s', add_vacant_until cap capcheck fuel s ix = (Ok tt, s') /\ SInv s' /\ avu_post s n s'.
   Proof.
     induction n as [|n IH]; intros s fuel I Hn Hf Hix;
       (destruct fuel as [|f]; [lia|]); cbn [add_vacant_until].
     - destruct (Nat.ltb_spec ix (length (gnodes (sg s)))) as [_|H]; [|lia].
-      exists s. split; auto. split; auto. constructor; auto; try lia.
+      exists s. split; auto. split; auto. apply avu_post_refl.
     - destruct (Nat.ltb_spec ix (length (gnodes (sg s)))) as [H|H]; [lia|].
       destruct (@add_vacant_node_spec s I) as [g' [Hrun [I1 P1]]]; [lia|].
-      rewrite Hrun. cbn [rbind].
+      rewrite Hrun.
       set (s1 := mkSG g' (ncount s) (ecount s) (length (gnodes (sg s))) (free_edge s)) in *.
       destruct (IH s1 f I1) as [s' [Hrun' [I' P']]]; [rewrite (av_nlen P1); lia|lia|auto|].
-      exists s'. split; [exact Hrun'|]. split; [exact I'|]. constructor.
-      + intros j. rewrite (au_nodes P'). apply (av_nodes P1).
-      + rewrite (au_edges P'). apply (av_edges P1).
-      + rewrite (au_nlen P'), (av_nlen P1). lia.
-      + intros k j l Hj Hl. apply (au_adj P').
-        * rewrite (av_nodes P1). auto.
-        * apply (av_adj P1); auto.
-      + rewrite (au_nc P'). apply (av_nc P1).
-      + rewrite (au_ec P'). apply (av_ec P1).
-      + rewrite (au_fe P'). apply (av_fe P1).
-      + intros l Hl. pose proof (au_free P' (av_free P1 Hl)) as H'.
-        rewrite (av_nlen P1) in H'. cbn [seq rev]. rewrite <- app_assoc. exact H'.
+      exists s'. split; [exact Hrun'|]. split; [exact I'|]. eapply avu_post_step; eauto.
   Qed.
 
+  (* at the index limit the padding loop panics after it has filled the vector up to cap slots:
+     the state left behind has d = cap - len more vacant slots, all on the free list, and
+     satisfies the invariant *)
   Lemma add_vacant_until_panic ix : forall d s fuel,
     capcheck = true -> SInv s -> cap <= ix -> cap - length (gnodes (sg s)) = d -> d < fuel ->
-    add_vacant_until cap capcheck fuel s ix = Panic.
+    exists s', add_vacant_until cap capcheck fuel s ix = (Panic, s') /\ SInv s' /\ avu_post s d s'.
   Proof.
     induction d as [|d IH]; intros s fuel Hc I Hix Hd Hf;
       (destruct fuel as [|f]; [lia|]); cbn [add_vacant_until];
       pose proof (sgi_ncap (si_g I)) as Hncap;
       (destruct (Nat.ltb_spec ix (length (gnodes (sg s)))) as [H|_]; [lia|]).
     - unfold add_vacant_node.
-      rewrite (@try_add_node_limit _ _ cap capcheck (sg s) None) by (auto; lia). reflexivity.
+      rewrite (@try_add_node_limit _ _ cap capcheck (sg s) None) by (auto; lia).
+      exists s. split; [reflexivity|]. split; [exact I|]. apply avu_post_refl.
     - destruct (@add_vacant_node_spec s I) as [g' [Hrun [I1 P1]]]; [lia|].
-      rewrite Hrun. cbn [rbind]. apply IH; auto; try lia. rewrite (av_nlen P1). lia.
+      rewrite Hrun.
+      set (s1 := mkSG g' (ncount s) (ecount s) (length (gnodes (sg s))) (free_edge s)) in *.
+      destruct (IH s1 f Hc I1 Hix) as [s' [Hrun' [I' P']]]; [rewrite (av_nlen P1); lia|lia|].
+      exists s'. split; [exact Hrun'|]. split; [exact I'|]. eapply avu_post_step; eauto.
   Qed.
 
   (* ensure_node_exists on a slot that is not live *)
@@ -540,21 +555,24 @@ Section Ensure.
 
   Theorem ensure_node_exists_spec s ix :
     SInv s ->
-    (nwo (sg s) ix <> None -> ensure_node_exists cap capcheck debug s ix = Ok s) /\
+    (nwo (sg s) ix <> None -> ensure_node_exists cap capcheck debug s ix = (Ok tt, s)) /\
     (nwo (sg s) ix = None -> ix < cap ->
-       exists s', ensure_node_exists cap capcheck debug s ix = Ok s' /\ SInv s' /\ ens_post s ix s') /\
-    (capcheck = true -> cap <= ix -> ensure_node_exists cap capcheck debug s ix = Panic).
+       exists s', ensure_node_exists cap capcheck debug s ix = (Ok tt, s') /\ SInv s' /\ ens_post s ix s') /\
+    (capcheck = true -> cap <= ix ->
+       exists s', ensure_node_exists cap capcheck debug s ix = (Panic, s') /\ SInv s' /\
+                  avu_post s (cap - length (gnodes (sg s))) s').
   Proof.
     intros I. pose proof (sgi_ncap (si_g I)) as Hncap. split; [|split].
     - intros Hl. unfold ensure_node_exists. destruct (get_node_live s ix Hl) as [n [Hg _]].
       rewrite Hg. reflexivity.
     - intros Hv Hix. unfold ensure_node_exists. rewrite (get_node_vacant s ix Hv).
       destruct (@add_vacant_until_spec ix _ s (S (S ix)) I eq_refl) as [s1 [Hrun1 [I1 P1]]]; [lia|auto|].
-      rewrite Hrun1. cbn [rbind].
+      rewrite Hrun1. cbv beta iota.
       destruct (@occupy_vacant_node_spec cap debug s1 ix 0 I1) as [s2 [Hrun2 [I2 P2]]].
       { rewrite (au_nlen P1). lia. }
       { rewrite (au_nodes P1). exact Hv. }
-      exists s2. split; [exact Hrun2|]. split; [exact I2|]. constructor.
+      rewrite Hrun2.
+      exists s2. split; [reflexivity|]. split; [exact I2|]. constructor.
       + apply (oc_new P2).
       + intros j Hj. rewrite (oc_old P2) by auto. apply (au_nodes P1).
       + rewrite (oc_edges P2). apply (au_edges P1).
@@ -572,7 +590,8 @@ Section Ensure.
         apply fnx_cap. apply (sgi_ncap (si_g I1)).
     - intros Hc Hix. unfold ensure_node_exists.
       rewrite (get_node_vacant s ix) by (apply nwo_oob; lia).
-      rewrite (@add_vacant_until_panic ix _ s (S (S ix)) Hc I Hix eq_refl) by lia. reflexivity.
+      destruct (@add_vacant_until_panic ix _ s (S (S ix)) Hc I Hix eq_refl) as [s' [Hrun [I' P']]]; [lia|].
+      rewrite Hrun. cbv beta iota. exists s'. split; [reflexivity|]. split; [exact I'|exact P'].
   Qed.
 End Ensure.
 
@@ -648,10 +667,23 @@ Section Extend.
     es_nlen : length (gnodes (sg s')) <= Nat.max (length (gnodes (sg s))) (S ix)
   }.
 
+  (* what a failed ensure_node_exists (index at or beyond the limit) leaves behind: the vector
+     padded with vacant slots up to cap entries, everything else as before *)
+  Record pad_sum (s s' : sgraph) : Prop := {
+    ps_inv : SInv s';
+    ps_keeps : keeps s s';
+    ps_nodes : forall j, nwo (sg s') j = nwo (sg s) j;
+    ps_edges : gedges (sg s') = gedges (sg s);
+    ps_fe : free_edge s' = free_edge s;
+    ps_ec : ecount s' = ecount s;
+    ps_nlen : length (gnodes (sg s')) = cap
+  }.
+
   Lemma ensure_total s ix :
     SInv s -> (capcheck = false -> ix < cap) ->
-    (ensure_node_exists cap capcheck debug s ix = Panic /\ capcheck = true /\ cap <= ix) \/
-    (exists s', ensure_node_exists cap capcheck debug s ix = Ok s' /\ ens_sum s ix s').
+    (exists s', ensure_node_exists cap capcheck debug s ix = (Panic, s') /\
+                capcheck = true /\ cap <= ix /\ pad_sum s s') \/
+    (exists s', ensure_node_exists cap capcheck debug s ix = (Ok tt, s') /\ ens_sum s ix s').
   Proof.
     intros I Hroom. destruct (ensure_node_exists_spec capcheck debug ix I) as [H1 [H2 H3]].
     destruct (nwo (sg s) ix) as [w0|] eqn:E.
@@ -682,7 +714,22 @@ Section Extend.
           -- rewrite (en_old P) in Hj' by auto. contradiction.
         * rewrite (en_nlen P). lia.
       + left. destruct capcheck eqn:Ec.
-        * split; [apply H3; auto|auto].
+        * destruct (H3 eq_refl Hge) as [s' [Hrun [I' P]]]. exists s'.
+          split; [exact Hrun|]. split; [reflexivity|]. split; [exact Hge|].
+          pose proof (sgi_ncap (si_g I)) as Hncap.
+          constructor.
+          -- exact I'.
+          -- constructor.
+             ++ intros j w Hj. rewrite (au_nodes P). exact Hj.
+             ++ intros x w Hx. unfold ewo. rewrite (au_edges P). exact Hx.
+             ++ intros k x _. rewrite (au_edges P). reflexivity.
+             ++ rewrite (au_nlen P). lia.
+             ++ rewrite (au_edges P). lia.
+          -- apply (au_nodes P).
+          -- apply (au_edges P).
+          -- apply (au_fe P).
+          -- apply (au_ec P).
+          -- rewrite (au_nlen P). lia.
         * specialize (Hroom eq_refl). lia.
   Qed.
 
@@ -714,7 +761,8 @@ Section Extend.
       (if ok then post = []
        else capcheck = true /\
             exists a b w post', post = (a, b, w) :: post' /\
-              (cap <= a \/ cap <= b \/ (free_edge s' = cap /\ length (gedges (sg s')) = cap))).
+              (((cap <= a \/ (nwo (sg s') a <> None /\ cap <= b)) /\ length (gnodes (sg s')) = cap) \/
+               (a < cap /\ b < cap /\ free_edge s' = cap /\ length (gedges (sg s')) = cap))).
 
   Lemma ext_result_stop s es s' a b w rest :
     es = (a, b, w) :: rest ->
@@ -722,7 +770,8 @@ Section Extend.
     length (gnodes (sg s')) <= Nat.max (length (gnodes (sg s))) (S (Nat.max a b)) ->
     (forall j, nwo (sg s) j = None -> nwo (sg s') j <> None -> nwo (sg s') j = Some 0 /\ (j = a \/ j = b)) ->
     capcheck = true ->
-    (cap <= a \/ cap <= b \/ (free_edge s' = cap /\ length (gedges (sg s')) = cap)) ->
+    (((cap <= a \/ (nwo (sg s') a <> None /\ cap <= b)) /\ length (gnodes (sg s')) = cap) \/
+     (a < cap /\ b < cap /\ free_edge s' = cap /\ length (gedges (sg s')) = cap)) ->
     ext_result s es false s'.
   Proof.
     intros -> I' K Eg Ec Hnl Hz Hc Hwhy. split; [auto|]. split; [auto|]. split; [|split].
@@ -753,18 +802,32 @@ Section Extend.
       { intros Hc. destruct (Hroom Hc) as [H _]. apply (H a b w). simpl; auto. }
       assert (Hrb : capcheck = false -> b < cap).
       { intros Hc. destruct (Hroom Hc) as [H _]. apply (H a b w). simpl; auto. }
-      destruct (@ensure_total s a I Hra) as [[Hrun1 [Hc Hge]]|[s1 [Hrun1 S1]]]; rewrite Hrun1.
-      { exists false, s. split; [reflexivity|].
-        eapply ext_result_stop; eauto using keeps_refl; [lia|]. intros j H1 H2. contradiction. }
-      destruct (@ensure_total s1 b (es_inv S1) Hrb) as [[Hrun2 [Hc Hge]]|[s2 [Hrun2 S2]]]; rewrite Hrun2.
+      pose proof (sgi_ncap (si_g I)) as Hncap0.
+      destruct (@ensure_total s a I Hra) as [[s1 [Hrun1 [Hc [Hge S1]]]]|[s1 [Hrun1 S1]]];
+        rewrite Hrun1; cbv beta iota.
       { exists false, s1. split; [reflexivity|].
         eapply ext_result_stop; eauto.
-        - apply (es_inv S1).
-        - apply (es_keeps S1).
-        - apply (es_edges S1).
-        - apply (es_ec S1).
-        - pose proof (es_nlen S1). lia.
-        - intros j H1 H2. destruct (es_zero S1 j H1 H2) as [Z ->]. auto. }
+        - apply (ps_inv S1).
+        - apply (ps_keeps S1).
+        - apply (ps_edges S1).
+        - apply (ps_ec S1).
+        - rewrite (ps_nlen S1). lia.
+        - intros j H1 H2. rewrite (ps_nodes S1) in H2. contradiction.
+        - left. split; [left; exact Hge|apply (ps_nlen S1)]. }
+      pose proof (sgi_ncap (si_g (es_inv S1))) as Hncap1.
+      destruct (@ensure_total s1 b (es_inv S1) Hrb) as [[s2 [Hrun2 [Hc [Hge S2]]]]|[s2 [Hrun2 S2]]];
+        rewrite Hrun2; cbv beta iota.
+      { exists false, s2. split; [reflexivity|].
+        eapply ext_result_stop; eauto.
+        - apply (ps_inv S2).
+        - eapply keeps_trans; [apply (es_keeps S1)|apply (ps_keeps S2)].
+        - rewrite (ps_edges S2). apply (es_edges S1).
+        - rewrite (ps_ec S2). apply (es_ec S1).
+        - rewrite (ps_nlen S2). lia.
+        - intros j H1 H2. rewrite (ps_nodes S2) in H2 |- *.
+          destruct (es_zero S1 j H1 H2) as [Z ->]. auto.
+        - left. split; [|apply (ps_nlen S2)]. right. split; [|exact Hge].
+          rewrite (ps_nodes S2). apply (es_live S1). }
       pose proof (es_inv S2) as I2.
       assert (K02 : keeps s s2) by (eapply keeps_trans; [apply (es_keeps S1)|apply (es_keeps S2)]).
       assert (Eg2 : gedges (sg s2) = gedges (sg s)) by (rewrite (es_edges S2); apply (es_edges S1)).
@@ -785,7 +848,10 @@ Section Extend.
       rewrite Hrun3. destruct r as [e|x].
       { destruct P3 as [-> P3]. exists false, s2. split; [reflexivity|].
         destruct P3 as [[_ [Hfe [Hc Hl]]]|[i [_ [_ [Hi [Hv _]]]]]].
-        - eapply ext_result_stop; eauto.
+        - eapply ext_result_stop; eauto. right.
+          pose proof (sgi_ncap (si_g I2)) as Hncap2.
+          pose proof (nwo_Some_lt _ _ La2). pose proof (nwo_Some_lt _ _ Lb2).
+          split; [lia|]. split; [lia|]. auto.
         - exfalso. destruct Hi as [->| ->]; contradiction. }
       destruct P3 as [_ [_ [Hx P3]]].
       pose proof (ae_keeps P3) as K23.
